@@ -51,17 +51,21 @@ func (o c15Op) String() string {
 }
 
 type c15Params struct {
-	Name  string
-	Ops   []c15Op
-	Close bool
-	Ticks int
-	Kevt  int // virtual capacity of the event queue (0: the real one)
+	Name   string
+	Ops    []c15Op
+	Close  bool
+	Ticks  int
+	Kevt   int  // virtual capacity of the event queue (0: the real one)
+	Orders bool // the entry at which every map iteration of the server starts is a scheduler choice
 }
 
 func (p c15Params) String() string {
 	var l []string
 	for _, o := range p.Ops {
 		l = append(l, o.String())
+	}
+	if p.Orders {
+		return fmt.Sprintf("%s: %s close=%v ticks=%d Kevt=%d map-orders=all rotations", p.Name, strings.Join(l, " "), p.Close, p.Ticks, p.Kevt)
 	}
 	return fmt.Sprintf("%s: %s close=%v ticks=%d Kevt=%d", p.Name, strings.Join(l, " "), p.Close, p.Ticks, p.Kevt)
 }
@@ -357,13 +361,15 @@ func c15Scenarios(tier string) []struct {
 		{c15Params{Name: "close-with-ticks", Ops: []c15Op{A(1, 1, p1), A(2, 2, p1), D(1, 1)}, Close: true, Ticks: 2, Kevt: 1}, 2},
 		{c15Params{Name: "period-change", Ops: []c15Op{A(1, 1, p1), D(1, 1), A(1, 1, p2)}, Ticks: 2}, 2},
 		{c15Params{Name: "re-register-same-period", Ops: []c15Op{A(1, 1, p1), D(1, 1), A(1, 2, p1)}, Ticks: 2, Kevt: 1}, 2},
+		{c15Params{Name: "close-two-periods", Ops: []c15Op{A(1, 1, p1), A(2, 1, p2)}, Close: true, Ticks: 1, Kevt: 2, Orders: true}, 2},
 	}
 	if tier == "thorough" {
 		out = []sc{
 			{c15Params{Name: "last-urr-goes", Ops: []c15Op{A(1, 1, p1), A(2, 1, p1), D(1, 1), D(2, 1)}, Ticks: 3}, 3},
 			{c15Params{Name: "two-periods", Ops: []c15Op{A(1, 1, p1), A(1, 2, p2), D(1, 1), A(2, 1, p1), D(1, 2)}, Ticks: 3}, 3},
 			{c15Params{Name: "close-with-ticks", Ops: []c15Op{A(1, 1, p1), A(2, 2, p1), D(1, 1)}, Close: true, Ticks: 3, Kevt: 1}, 3},
-			{c15Params{Name: "close-two-periods", Ops: []c15Op{A(1, 1, p1), A(2, 1, p2)}, Close: true, Ticks: 3, Kevt: 2}, 3},
+			{c15Params{Name: "close-two-periods", Ops: []c15Op{A(1, 1, p1), A(2, 1, p2)}, Close: true, Ticks: 2, Kevt: 2, Orders: true}, 3},
+			{c15Params{Name: "two-sessions-one-period", Ops: []c15Op{A(1, 1, p1), A(2, 1, p1), A(2, 2, p1), D(1, 1)}, Ticks: 2, Orders: true}, 2},
 			{c15Params{Name: "period-change", Ops: []c15Op{A(1, 1, p1), D(1, 1), A(1, 1, p2), D(1, 1)}, Ticks: 3}, 3},
 			{c15Params{Name: "re-register-same-period", Ops: []c15Op{A(1, 1, p1), D(1, 1), A(1, 2, p1), D(1, 2)}, Ticks: 3, Kevt: 1}, 3},
 			{c15Params{Name: "many", Ops: []c15Op{A(1, 1, p1), A(1, 2, p1), A(2, 1, p1), A(2, 2, p2), D(1, 2), D(2, 1), D(1, 1)}, Ticks: 2, Kevt: 2}, 2},
